@@ -3,6 +3,8 @@ and power-curve tables, levels, routes, durations through the real BEV / ICE met
 model `Hive.Mech`, with the C04 statements evaluated by Lean on the implementation's results."""
 from __future__ import annotations
 
+from . import framework as fw  # noqa: E402
+
 import logging
 import random
 from dataclasses import replace
@@ -146,5 +148,5 @@ def worker(args) -> Dict[str, Any]:
                 findings.append({"id": r["id"], "kind": "diff", "text": o["diff"][:6], "record": r})
             if o.get("mon"):
                 findings.append({"id": r["id"], "kind": "mon", "text": o["mon"][:6], "record": r})
-    return {"n": len(recs), "findings": findings[:20], "n_findings": len(findings), "shapes": sorted(shapes, key=str),
+    return {"n": len(recs), "findings": fw.pick(findings, 20), "n_findings": len(findings), "shapes": sorted(shapes, key=str),
             "sample": {k: recs[0][k] for k in ("fn", "pre", "post", "shape")}}
